@@ -70,6 +70,65 @@ def materialize_case(root: str, c: corpus.Case) -> dict:
     return {"root": root, "sources": [["tmp/main.py", "__main__"]], "overrides": ov}
 
 
+# --------------------------------------------------------------------------- generated inference family
+
+GI_PRELUDE = """from typing import Callable, List, TypeVar
+T = TypeVar('T')
+S = TypeVar('S')
+R = TypeVar('R')
+V = TypeVar('V')
+W = TypeVar('W')
+class A: ...
+class B(A): ...
+class C(B): ...
+def takes_a(x: A) -> None: ...
+def takes_c(x: C) -> None: ...
+def ret_b() -> B: ...
+def ident(x: V) -> V: ...
+def two(x: V, y: V) -> List[V]: ...
+def pair(x: V, y: W) -> List[W]: ...
+def first(x: List[V]) -> V: ...
+a: A
+b: B
+lc: List[C]
+"""
+GI_PARAMS = ["Callable[[T], None]", "Callable[[T, S], R]", "Callable[[T], S]", "Callable[[], T]", "Callable[[S], T]",
+             "Callable[[S, T], List[R]]", "T", "List[T]", "S"]
+GI_RETS = ["R", "T", "S", "List[T]"]
+GI_ARGS = ["takes_a", "takes_c", "ret_b", "ident", "two", "pair", "first", "a", "b", "lc", "lambda x: x",
+           "lambda x, y: [x, y]"]
+
+
+def generic_inference_programs(quick: bool) -> list[tuple[str, str]]:
+    """Every higher-order generic function `hof(p1: P_i, p2: P_j) -> Ret` over a pool of parameter shapes, called
+    with every ordered pair of a pool of (generic) functions / values: the constraint solver meets several type
+    variables whose bounds come from different arguments.  One module per first-parameter shape."""
+    out = []
+    rets = GI_RETS[:2] if quick else GI_RETS
+    for i, p1 in enumerate(GI_PARAMS):
+        lines = [GI_PRELUDE]
+        k = 0
+        for j, p2 in enumerate(GI_PARAMS):
+            for r in rets:
+                name = f"hof_{i}_{j}_{k}"
+                k += 1
+                lines.append(f"def {name}(f: {p1}, g: {p2}) -> {r}: ...")
+                n = 0
+                for a1 in GI_ARGS:
+                    for a2 in GI_ARGS:
+                        # one function per call: a call inferred as Never makes what follows unreachable
+                        lines.append(f"def c_{name}_{n}() -> None:\n    reveal_type({name}({a1}, {a2}))")
+                        n += 1
+        out.append((f"gi{i}", "\n".join(lines) + "\n"))
+    return out
+
+
+def materialize_text(root: str, text: str, fixture: str = "list.pyi") -> dict:
+    drivers.write_tree(root, {"tmp/main.py": (text, BASE_TIME + 7)})
+    drivers.install_fixture(root, fixture)
+    return {"root": root, "sources": [["tmp/main.py", "__main__"]], "overrides": {"many_errors_threshold": -1}}
+
+
 # --------------------------------------------------------------------------- (a) hash seeds
 
 
@@ -387,6 +446,10 @@ def run(ctx: Ctx) -> Result:
         root = os.path.join(base, "c", f"{i}")
         sp = materialize_case(root, c)
         sp["pid"] = "corpus:" + c.id
+        progs.append(sp)
+    for gid, text in generic_inference_programs(ctx.quick):
+        sp = materialize_text(os.path.join(base, "gi", gid), text)
+        sp["pid"] = "generated-inference:" + gid
         progs.append(sp)
     seeds = list(range(4)) if ctx.quick else list(range(32))
     fmts = ["ff", "json"]
